@@ -23,7 +23,19 @@ LOCALES = {
     "eu": (". " + NBSP + NNBSP, ","),
     "ch": (". " + NBSP + NNBSP + "'", ","),
     "space": (" " + NBSP + NNBSP, "."),
+    # separators that come from the Language preference (DecimalSeparator left at Auto): see LANG_TAGS
+    "mx": (", " + NBSP + NNBSP, "."),
+    "li": (", " + NBSP + NNBSP + "'", "."),
+    "de": (". " + NBSP + NNBSP, ","),
 }
+LANG_TAGS = {"mx": "es-MX", "li": "de-LI", "de": "de-DE"}       # the tag as it is usually written: upper-case region
+
+
+def sep_prefs(loc):
+    if loc in LANG_TAGS:
+        return [["set_preference", "Language", LANG_TAGS[loc]]]
+    block, dec = LOCALES[loc]
+    return [["set_preference", "DecimalSeparators", dec], ["set_preference", "BlockSeparators", block]]
 
 
 def gen_number(rng, loc):
@@ -258,7 +270,7 @@ def api_oracle(res, corp):
     sessions, meta = [], []
     for loc in LOCALES:
         block, dec = LOCALES[loc]
-        pre = [["set_rules_dir", C.RULES], ["set_preference", "DecimalSeparators", dec], ["set_preference", "BlockSeparators", block]]
+        pre = [["set_rules_dir", C.RULES]] + sep_prefs(loc)
         for code in ("Nemeth", "UEB"):
             ops = pre + [["set_preference", "BrailleCode", code]]
             cases = [c for c in corp if c[0] == loc and c[1] is not None]
@@ -271,7 +283,7 @@ def api_oracle(res, corp):
     nv = 0
     kf = {k["id"]: k for k in C.known_findings("C16")}
     for (loc, code, cases), r in zip(meta, out):
-        rs = r.get("res", [])[4:]
+        rs = r.get("res", [])[len(sep_prefs(loc)) + 2:]
         if len(rs) != 6 * len(cases):
             res.violation("session crashes while canonicalizing split numbers (locale %s)" % loc, {"kind": "session", "locale": loc, "result": r})
             nv += 1
@@ -289,7 +301,7 @@ def api_oracle(res, corp):
                     if "comma-decimal-inside-fences-not-folded" in kf:
                         res.known("comma-decimal-inside-fences-not-folded: %s" % split[:100])
                         continue
-                if loc == "ch" and "&#x27;" in split and "swiss-apostrophe-becomes-prime" in kf:
+                if "'" in LOCALES[loc][0] and "&#x27;" in split and "swiss-apostrophe-becomes-prime" in kf:
                     res.known("swiss-apostrophe-becomes-prime: %s" % split[:100])
                     continue
                 if "&#x202F;" in split and na[1] == nb[1] and "narrow-nbsp-normalised-only-when-split" in kf:
@@ -387,7 +399,7 @@ def replay(path):
         return 2
     if rep.get("kind") == "pair":
         block, dec = LOCALES[rep["locale"]]
-        pre = [["set_preference", "DecimalSeparators", dec], ["set_preference", "BlockSeparators", block], ["set_preference", "BrailleCode", rep["code"]]]
+        pre = sep_prefs(rep["locale"]) + [["set_preference", "BrailleCode", rep["code"]]]
         outs = []
         for body in (rep["unsplit"], rep["split"]):
             r = C.one_session(pre + [["set_mathml", "<math><mrow>%s</mrow></math>" % body], ["get_spoken_text"], ["get_braille", ""]])["res"][3:]
